@@ -316,3 +316,30 @@ def sample(lines, k=3):
         except Exception:
             out.append(lines[i][:400])
     return out
+
+
+def tlapm_prove(module, deps, pid, theorem, timeout=1500, threads=4):
+    """Run the TLA+ proof system on spec/<module>.tla (which EXTENDS the checked modules `deps` themselves) in a scratch
+    copy under the property's work directory.  A failed obligation is a defect of the specification library, not of
+    the code under test: tool error."""
+    import shutil
+    wd = workdir(pid)
+    pd = f"{wd}/proof-{module}"
+    shutil.rmtree(pd, ignore_errors=True)
+    os.makedirs(pd)
+    for f in list(deps) + [module]:
+        shutil.copy(f"{ROOT}/spec/{f}.tla", pd)
+    log = f"{wd}/tlapm_{module}.log"
+    try:
+        p = subprocess.run(["tlapm", "--threads", str(threads), f"{module}.tla"], cwd=pd, stdout=subprocess.PIPE,
+                           stderr=subprocess.STDOUT, text=True, timeout=timeout)
+    except subprocess.TimeoutExpired:
+        tool_error(f"tlapm {module} timed out")
+    open(log, "w").write(p.stdout)
+    m = re.search(r"All (\d+) obligations proved", p.stdout)
+    if p.returncode != 0 or not m:
+        print(p.stdout[-1500:])
+        tool_error(f"tlapm did not prove {module} (log {log})")
+    shutil.rmtree(pd, ignore_errors=True)
+    return {"prover": "tlapm (TLAPS 1.6.0-pre; SMT / Zenon / Isabelle back ends)", "module": module,
+            "theorem": theorem, "obligations_proved": int(m.group(1))}
